@@ -104,12 +104,23 @@ func c02Record(dir string, long bool) (*c02Transcript, func() *stream.Stream, er
 		return nil, nil, err
 	}
 	t := &c02Transcript{dir: dir, long: long}
-	if dir == "AB" {
+	if dir == "AB" || dir == "AB+secret" {
 		// other-direction frame for splices: B sends one message
 		if err := b.SendMessage(ctx, []byte("pong")); err != nil {
 			return nil, nil, err
 		}
 		t.other = append([]byte(nil), bb.W...)
+		var secWire []byte
+		if dir == "AB+secret" {
+			// before the faulted leg the (already encrypting) stream carries a secret
+			// (PutSecret / GetSecret toggle the crypto mode around it); the stream must
+			// still be protected afterwards
+			if err := a.PutSecret(ctx, "claim-id-1234"); err != nil {
+				return nil, nil, err
+			}
+			secWire = append([]byte(nil), ab.W...)
+			ab.W = nil
+		}
 		msgs, err := c02SendScript(a, long)
 		if err != nil {
 			return nil, nil, err
@@ -120,6 +131,10 @@ func c02Record(dir string, long bool) (*c02Transcript, func() *stream.Stream, er
 			r := stream.NewStream(rb)
 			_, _ = r.ReceiveCompleteMessage(ctx)
 			_ = r.SetSymmetricKey(testKey)
+			if secWire != nil {
+				rb.R = append([]byte(nil), secWire...)
+				_, _ = r.GetSecret(ctx)
+			}
 			return r
 		}
 		t.split()
@@ -353,14 +368,14 @@ func c02Ops() []c02Op {
 func C02Plan() *vlib.Plan {
 	p := &vlib.Plan{
 		Property: "C02", Level: "fault_enumeration",
-		Rule:   "E-FAULT: recorded AES-GCM transcripts (3-frame, empty, 2-frame, 1-frame message; thorough adds a 5000-byte multi-frame message) in both directions x every single fault: each bit of every header/IV/ciphertext/tag flipped, truncation at every byte, every frame dropped/duplicated/swapped/replayed later, length fields +-1/+-16, a forged frame (7 lengths x 5 end flags x 2 bodies) and a cross-direction frame inserted at every position; thorough: all ordered pairs of frame-level faults. 3 receive APIs. Non-trivial = the mutated wire differs from the recorded one and was fed to the receiver; case ids are distinct by construction.",
+		Rule:   "E-FAULT: recorded AES-GCM transcripts (3-frame, empty, 2-frame, 1-frame message; thorough adds a 5000-byte multi-frame message) in both directions (and once after a PutSecret/GetSecret exchange on the already encrypting stream) x every single fault: each bit of every header/IV/ciphertext/tag flipped, truncation at every byte, every frame dropped/duplicated/swapped/replayed later, length fields +-1/+-16, a forged frame (7 lengths x 5 end flags x 2 bodies) and a cross-direction frame inserted at every position; thorough: all ordered pairs of frame-level faults. 3 receive APIs. Non-trivial = the mutated wire differs from the recorded one and was fed to the receiver; case ids are distinct by construction.",
 		Assume: []string{"the receiver learns the peer IV from the wire, so a recorded transcript replays deterministically", "Go crypto/aes+cipher (GCM) trusted"},
 	}
 	p.Gen = func(tier string, yield func(vlib.Case)) {
 		long := tier == "thorough"
 		p.Bounds = map[string]any{"long_message": long, "fault_pairs": long}
 		ops := c02Ops()
-		for _, dir := range []string{"AB", "BA"} {
+		for _, dir := range []string{"AB", "BA", "AB+secret"} {
 			t, mk, err := c02Record(dir, long)
 			if err != nil {
 				yield(vlib.Case{ID: "record/" + dir, Run: func() *vlib.Result {
